@@ -610,6 +610,7 @@ func genRouterSlots(p *Pkg, l *Lean) {
 			return
 		}
 		var hows []string
+		al := rfAliases(fd.Body)
 		ast.Inspect(fd.Body, func(nd ast.Node) bool {
 			as, ok := nd.(*ast.AssignStmt)
 			if !ok || as.Tok != token.ASSIGN {
@@ -617,6 +618,12 @@ func genRouterSlots(p *Pkg, l *Lean) {
 			}
 			for _, lh := range as.Lhs {
 				raw := flRaw(lh)
+				// `slot := r.subRouter.unknownCall; *slot = h` is the same write-through as `*r.subRouter.unknownCall = h`
+				if st, isStar := flUnparen(lh).(*ast.StarExpr); isStar {
+					if id, isId := flUnparen(st.X).(*ast.Ident); isId && al[id.Name] != nil {
+						raw = "*" + flRaw(al[id.Name])
+					}
+				}
 				for k := range watched {
 					if strings.HasSuffix(raw, "."+k) {
 						if _, isStar := flUnparen(lh).(*ast.StarExpr); isStar {
@@ -651,14 +658,47 @@ func genRouterSlots(p *Pkg, l *Lean) {
 			s   string
 		}
 		var evs []ev
-		ast.Inspect(fd.Body, func(nd ast.Node) bool {
+		body := fd.Body
+		field := func(e ast.Expr) string { return rfRecvField(e, rv) }
+		// `return lookupHandler(r.callHandlers, r.unknownCall, uriPath)`: the body of the shared helper is
+		// read with its parameters bound to the receiver fields passed in (harmless seed C10-H2)
+		if len(fd.Body.List) == 1 {
+			if rs, ok := fd.Body.List[0].(*ast.ReturnStmt); ok && len(rs.Results) == 1 {
+				if call, ok := flUnparen(rs.Results[0]).(*ast.CallExpr); ok {
+					if id, ok := flUnparen(call.Fun).(*ast.Ident); ok {
+						if h := p.Func("", id.Name); h != nil && h.Type.Params != nil {
+							bind := map[string]string{}
+							i := 0
+							for _, fld := range h.Type.Params.List {
+								for _, nm := range fld.Names {
+									if i < len(call.Args) {
+										if f := rfRecvField(call.Args[i], rv); f != "" {
+											bind[nm.Name] = f
+										}
+									}
+									i++
+								}
+							}
+							body = h.Body
+							field = func(e ast.Expr) string {
+								if id, ok := flUnparen(e).(*ast.Ident); ok {
+									return bind[id.Name]
+								}
+								return ""
+							}
+						}
+					}
+				}
+			}
+		}
+		ast.Inspect(body, func(nd ast.Node) bool {
 			switch v := nd.(type) {
 			case *ast.IndexExpr:
-				if f := rfRecvField(v.X, rv); f != "" {
+				if f := field(v.X); f != "" {
 					evs = append(evs, ev{v.Pos(), "lookup:" + f})
 				}
 			case *ast.StarExpr:
-				if f := rfRecvField(v.X, rv); f != "" {
+				if f := field(v.X); f != "" {
 					evs = append(evs, ev{v.Pos(), "deref:" + f})
 				}
 			case *ast.ReturnStmt:
@@ -673,10 +713,26 @@ func genRouterSlots(p *Pkg, l *Lean) {
 			return true
 		})
 		sort.Slice(evs, func(i, j int) bool { return evs[i].pos < evs[j].pos })
-		var ss []string
+		// canonical form: the lookup, the returns that stand before the dereference of the shared slot
+		// (the hit path must not read it), the dereference, the returns after it - each group of
+		// returns as a sorted set, so swapping the two tail branches does not change the fact
+		var ss, grp []string
+		flush := func() {
+			sort.Strings(grp)
+			if len(grp) > 0 {
+				ss = append(ss, "return:"+strings.Join(grp, "|"))
+			}
+			grp = nil
+		}
 		for _, e := range evs {
+			if strings.HasPrefix(e.s, "return:") {
+				grp = append(grp, strings.TrimPrefix(e.s, "return:"))
+				continue
+			}
+			flush()
 			ss = append(ss, e.s)
 		}
+		flush()
 		gets = append(gets, []string{fn, strings.Join(ss, ";")})
 	}
 	l.add("router_get", "(function, landmarks in source order) of getCall / getPush: map lookup, dereference of the unknown slot, returns", "List (String × String)", flSortedRows(gets))
